@@ -57,6 +57,17 @@ def jobs(tier, seed):
            ('two-street-hilo-2boards', C.custom((3, 5, 4), C.TWO_STREET_BURN, deck='KUHN9', hand_types=('KuhnAny', 'JQLow'),
                                              boards=2, mode='cash'), {'runouts': (None, 2), 'fold_unfaced': True}),
            ('NT-3-cash-warned-folds', C.nt((3, 6, 6), mode='cash'), {'raises': 'minmax', 'fold_unfaced': True})]
+    # forced-bet grid: every seat short / deep against antes and blinds (a legal step must never fail part-way in the
+    # ante / blind phases, whoever is short)
+    from itertools import product
+    for n in (2, 3):
+        for stacks in product((1, 2, 3, 5), repeat=n):
+            for antes in (0, 1, {1: 2}):
+                for au in ('NONE', 'ALL', ['ANTE_POSTING', 'BLIND_OR_STRADDLE_POSTING', 'BET_COLLECTION']):
+                    c = C.nt(stacks, antes=antes)
+                    c['autos'] = au
+                    out.append({'family': f'forced-bet-grid-{n}p', 'cfg': c, 'opts': {'show': (None,), 'raises': 'minmax', 'probe': True},
+                                'dev_bound': 1, 'state_cap': 60000, 'time_cap': 120})
     for fam, cfg, o in big:
         for au in few:
             c = dict(cfg)
